@@ -25,6 +25,26 @@ MIN_DECIDING = {"unchanged_judged": 50, "mutated_judged": 50, "mutated_at_root":
 MUT = ["content", "rename_file", "rename_dir", "add_file", "add_dir", "remove_file", "remove_dir", "rename_equiv"]
 
 
+def _only_own_pattern_children_named(text, own_pattern, nested):
+    """every mismatch line names a nested history that was sealed with its own pattern, a folder above it or one inside it"""
+    import re
+
+    tops = set()
+    for n in own_pattern:
+        parts = n.split("/")
+        tops.update("/".join(parts[:i]) for i in range(1, len(parts) + 1))
+    for line in text.split("\n"):
+        m = re.match(r"^ERROR: (?:content|structure) hash mismatch\s+for (.*?) (?:\(root folder in child history\) )?old ", line)
+        if m:
+            p = m.group(1)
+            inside = any(p.startswith(n + "/") for n in own_pattern)  # a folder of such a history holding a matching file
+            if p not in tops and p != "." and not inside and os.path.basename(p) not in {os.path.basename(t) for t in tops}:
+                return False
+        elif line.startswith("ERROR: ") and "root folder" not in line and "hash mismatch" not in line:
+            return False
+    return True
+
+
 def budget(tier):
     return {"cases": 6000, "seconds": 55} if tier == "quick" else {"cases": 200000, "seconds": 600}
 
@@ -67,11 +87,22 @@ def run_case(cs):
     child_first = rng.random() < 0.6
     steps = []
 
+    own_pattern = {}
+    for n in nested:
+        if rng.random() < 0.1:
+            # this nested history will be sealed with a pattern of its own that covers one of its files (the file is
+            # there from the beginning: the tree never changes)
+            with open(os.path.join(root, n, "render-cache.tmp"), "wb") as f:
+                f.write(b"tmp" + rng.randbytes(3))
+            own_pattern[n] = "*.tmp"
+            cs.count("nested_histories_with_own_pattern")
+
     def seal_children():
         for n in nested:
             fm = world.gen_formats(rng)
-            r = drive.run("create", [os.path.join(root, n)] + world.fmt_args(fm))
-            steps.append(f"child {n!r} {fm} => {r.exit}")
+            extra = ["-i", own_pattern[n]] if n in own_pattern else []
+            r = drive.run("create", [os.path.join(root, n)] + world.fmt_args(fm) + extra)
+            steps.append(f"child {n!r} {fm} {extra} => {r.exit}")
             if r.exit != 0:
                 return False
         return True
@@ -126,8 +157,15 @@ def run_case(cs):
         cs.violation(classify.internal_key(r), classify.internal_sig(r, "verify-dh"), {**ctx, **r.brief()})
         return
     if r.exit != 0:
-        cs.violation("dh-false-alarm-on-unchanged", {"kind": "dh-unchanged-nonzero", "exit": r.exit, "nested": bool(nested), "has_n_gen": "n" in pattern}, {**ctx, "out": r.text[-600:]})
+        key = "dh-false-alarm-on-unchanged"
+        if own_pattern and r.exit == 12 and _only_own_pattern_children_named(r.text, own_pattern, nested):
+            # mechanism: a run started at the outer folder walks into the nested history with the outer patterns only, so
+            # the file the nested history itself excludes is hashed into that history's directory hashes
+            key = "nested-history-own-pattern"
+        cs.violation(key, {"kind": "dh-unchanged-nonzero", "exit": r.exit, "nested": bool(nested), "has_n_gen": "n" in pattern}, {**ctx, "own_pattern": own_pattern, "out": r.text[-600:]})
         return
+    if own_pattern:
+        return  # the mutation phase below models one pattern list for the whole tree
     if pure_n:
         cs.count("pure_n_histories")
         return
